@@ -958,12 +958,13 @@ def gen_table(rng, unions: bool = True, inherit: bool = True, generics: float = 
                 k = rng.random()
                 if unions and len(later) >= 2 and k < 0.3:
                     mem = rng.sample(later, rng.randint(2, min(3, len(later))))
-                    # a specialised generic class is a union member only in first position, and only one of them: after
-                    # another member, that member's call `value.__mashumaro_to_dict__()` succeeds on the generic instance
-                    # with the UNSPECIALISED method -- already in the option-free twin (the plain output itself is off:
-                    # a defect of union packing, not of the options; reported, outside this property)
-                    spec = [m for m in mem if table[m].generic and table[m].targ]
-                    mem = tuple(spec[:1] + [m for m in mem if m not in spec])
+                    # a specialised generic class is no union member: its method has a name of its own
+                    # (__mashumaro_to_dict_<hash of the type arguments>__), so (a) after another member, that member's call
+                    # `value.__mashumaro_to_dict__()` succeeds on the generic instance with the UNSPECIALISED method -- already
+                    # in the option-free twin (the plain output itself is off: a defect of union packing, not of the options;
+                    # reported, outside this property) -- and (b) as first member its call never succeeds on instances of the
+                    # other members, which the first-accepting-member rule of the model (OptNested.pick) does not describe
+                    mem = tuple(m for m in mem if not (table[m].generic and table[m].targ)) or (rng.choice(later),)
                     if len(mem) >= 2:
                         fields.append(DcField(nm, mem, False, al, False))
                     else:
@@ -1515,7 +1516,7 @@ def run_generic(ctx: vlib.Ctx, ncases: list[str], ninfo: list, ccases: list[str]
             NCls(Opts(), (ga, gv, leaf), False, **gk),
         ]
         for ik, inner in enumerate(inner_kinds):
-            f = shapes[(ik + rng.randrange(len(shapes))) % len(shapes)]
+            f = shapes[(ik + rng.randrange(len(shapes))) % (len(shapes) if not gk["targ"] else len(shapes) - 1)]    # no unions of specialisations
             outer = NCls(Opts(cfg=(rng.choice(TRI), "U", "U"), fon=ik == 1 or rng.random() < 0.3, fdl=ik == 0),
                          (f, FieldSpec("w", "int", "val", "1", "W", False)), True)
             table = [outer, inner, other]
@@ -1782,8 +1783,9 @@ def run(ctx: vlib.Ctx):
         "defaults (flag_defaults_ok), union member flags (ok_h: flags_eqb), a bounded type variable left unbound "
         "(K17_bound_refuted; vals_ok excludes its None); oracle-only known finding: dialect-specific method of a specialised "
         "generic class (dialect-drops-type-args; such calls are kept out of the Coq cases)",
-        "a specialised generic class is a Union member in first position only (after another member the option-free twin "
-        "itself serializes it with the unspecialised method: union packing, outside this property)",
+        "a specialised generic class is not a Union member (after another member the option-free twin itself serializes "
+        "it with the unspecialised method: union packing, outside this property; as first member its specially named "
+        "method never accepts the other members' instances, which OptNested.pick does not describe)",
         "nested: mixin roots (codec path forwards no flags and hands its default dialect to every class by design); "
         "dataclass-typed fields have no default other than None / default_factory=list",
         "hooks, context values, format encoders (to_json ...) and lazy compilation do not change the mapping: exercised "
